@@ -6,7 +6,7 @@ Import RecordSetNotations.
 Lemma hrec_h0 f4 : HRec f4 h0.
 Proof. constructor; simpl; try congruence; try (split; congruence); intuition congruence. Qed.
 
-Lemma sinv_init f4 f14 : SInv (rinit f4 f14).
+Lemma sinv_init f4 f14 f15 : SInv (rinit f4 f14 f15).
 Proof.
   constructor; unfold lockpc, closerpc; simpl; try congruence; try (split; congruence);
     try (intros; apply hrec_h0); try (intros; lia); try (intuition congruence).
